@@ -54,6 +54,10 @@ def integrate(
 
         if ii + n - 1 < nt:
             future_dt = time[ii + n - 1] - time[ii + n - 2]
+            if n > 1:
+                # compare the newest step of the stencil with the step directly
+                # preceding it (for n == 1 that is the previous step already).
+                prev_dt = time[ii + n - 2] - time[ii + n - 3]
         else:
             future_dt = curr_dt
             restart = True
